@@ -69,6 +69,27 @@ CLAIMED = {
         note="Partial: only a subset of the T10 ASC/ASCQ text list is in Spec/SenseFmt.v (totality and positions are full); texts are "
              "compared case-insensitively; text formatting ('%02X') is observed through a parser of str() in the harness.",
         technique="Coq proof over a regenerated model (reflection side conditions) + vm_compute correspondence"),
+    "C13": dict(
+        text="Machine-checked proof (Coq) over the 38 facade methods REGENERATED as action lists: every method is look-up, construct with "
+             "that opcode (arguments wired to the same-named constructor parameters), execute once, optionally decode, return; a generic "
+             "theorem derives, for every point of failure, that at most one command is handed to the device, nothing is sent when "
+             "construction is refused, nothing is decoded or returned when the device reports an error; get_opcode's suffix search finds the "
+             "9Eh/A3h entries with their service actions in every set; documented keyword names are constructor parameters. Tied by a "
+             "2550-call correspondence with a recording device (5 command sets, optional-argument subsets, zero/random fill, device error), "
+             "which also checks buffer identity, T10 opcode and decode-after-execute on the implementation.",
+        ref="DESIGN.md §4 C13",
+        note="The event-trace semantics of the action language is hand-written (Model/Facade.v) and tied by correspondence; buffer identity "
+             "and decode-after-execute are observed on the implementation, not modelled.",
+        technique="Coq proof by reflection over regenerated action lists + vm_compute correspondence"),
+    "C16": dict(
+        text="Machine-checked (Coq): the decision table of __init_opcode, the INQUIRY data table and the opcode sets are REGENERATED; complete "
+             "enumeration inside the kernel over all 32 device types x 5 current sets shows SBC for 0/4/7, SSC for 1, MMC for 5, SMC for 8 and "
+             "a set with the primary commands otherwise; the type is bits 4:0 of byte 0 for every buffer (qualifier cannot leak); attach is "
+             "one standard INQUIRY; for every history of attaches over several device objects the device attached last carries the set of "
+             "its own type and no other device changes. Tied by 812 attach histories (all 256 first bytes, fresh/re-used devices and facades).",
+        ref="DESIGN.md §4 C16",
+        note="Both transports share the facade code path; the histories run over a recording device object (the facade works over any device object).",
+        technique="Coq: kernel enumeration over regenerated tables + history lemma + vm_compute correspondence"),
     "C10": dict(
         text="Machine-checked proof (Coq 8.16.1) of the codec laws for every buffer size, every contiguous mask at any "
              "alignment, every offset, every in-range value, every field order and arbitrary prior contents "
